@@ -162,23 +162,23 @@ impl<const L: usize> SimEnv for Env<L> {
         Env::<L>::new(t0, ticks[0], step_size, trading)
     }
     fn do_step<R: RngCore>(&mut self, rng: &mut R) {
-        self.step(rng)
+        let _ = self.step(rng);
     }
     fn set_trading(&mut self, on: bool) {
         if on {
-            self.enable_trading()
+            let _ = self.enable_trading();
         } else {
-            self.disable_trading()
+            let _ = self.disable_trading();
         }
     }
     fn place(&mut self, _asset: usize, bid: bool, vol: u32, trader: u32, price: Option<u32>) -> Result<(usize, usize), String> {
         self.place_order(side_of(bid), vol, trader, price).map(|id| (0, id)).map_err(|e| e.to_string())
     }
     fn cancel(&mut self, _asset: usize, id: usize) {
-        self.cancel_order(id)
+        let _ = self.cancel_order(id);
     }
     fn modify(&mut self, _asset: usize, id: usize, p: Option<u32>, v: Option<u32>) {
-        self.modify_order(id, p, v)
+        let _ = self.modify_order(id, p, v);
     }
     fn book(&self, _asset: usize) -> &OrderBook<L> {
         self.get_orderbook()
@@ -236,23 +236,23 @@ impl<const A: usize, const L: usize> SimEnv for MarketEnv<A, L> {
         MarketEnv::<A, L>::new(t0, t, step_size, trading)
     }
     fn do_step<R: RngCore>(&mut self, rng: &mut R) {
-        self.step(rng)
+        let _ = self.step(rng);
     }
     fn set_trading(&mut self, on: bool) {
         if on {
-            self.enable_trading()
+            let _ = self.enable_trading();
         } else {
-            self.disable_trading()
+            let _ = self.disable_trading();
         }
     }
     fn place(&mut self, asset: usize, bid: bool, vol: u32, trader: u32, price: Option<u32>) -> Result<(usize, usize), String> {
         self.place_order(asset, side_of(bid), vol, trader, price).map_err(|e| e.to_string())
     }
     fn cancel(&mut self, asset: usize, id: usize) {
-        self.cancel_order((asset, id))
+        let _ = self.cancel_order((asset, id));
     }
     fn modify(&mut self, asset: usize, id: usize, p: Option<u32>, v: Option<u32>) {
-        self.modify_order((asset, id), p, v)
+        let _ = self.modify_order((asset, id), p, v);
     }
     fn book(&self, asset: usize) -> &OrderBook<L> {
         self.get_market().get_order_book(asset)
